@@ -8,10 +8,19 @@ def t1(nset, timeout=900, solver="cadical"):
              what="%d successive simcam_set calls with fully symbolic shape/offset/exposure/type/trigger and every power-of-two binning: clamping, strides, get-after-set, buffer sizes >= extent of the full-resolution render" % nset,
              bounds=dict(sets=nset, shape="0..2^32-1 per axis", binning="0,1,2,4,...,128 and any non-power-of-two", types="all 8"))
 
+def reconf(timeout=1500, solver="kissat"):
+    h = t1(1, timeout, solver)
+    h.name = "simcam_reconfigure_step_" + solver
+    h.defines = ["MODE=3"]
+    h.what = "re-configuration as an induction step: arbitrary earlier configuration (binning, clamped shape, type) whose buffers satisfy the size invariant, then one fully symbolic simcam_set: same obligations (buffers >= extent of the NEW full-resolution render)"
+    return h
+
 def harnesses(tier, findings):
+    if tier == "probe":
+        return [reconf(solver="kissat"), reconf(solver="cadical")]
     if tier == "quick":
-        return [t1(1)]
-    return [t1(1), t1(2, 3000)]
+        return [t1(1), reconf()]
+    return [t1(1), reconf(3000)]
 
 META = dict(
     level="model_checking",
